@@ -193,13 +193,25 @@ Proof.
 Qed.
 
 Theorem melt_limit_enforced cfg req h msat newid w :
-  0 < c_max_melt cfg -> c_max_melt cfg < (msat + 999) / 1000 -> msat <> 0 ->
+  0 < c_max_melt cfg -> c_max_melt cfg < (msat + 999) / 1000 -> 0 < msat < two63 ->
   exists w', run (request_melt_quote cfg true true req h msat None newid) no_fault w = (w', Done (Err EMeltLimit)) /\
              same_but_calls w w'.
 Proof.
-  intros H1 H2 Hm. unfold request_melt_quote. cbn [negb]. apply Z.eqb_neq in Hm. rewrite Hm.
-  apply Z.ltb_lt in H1, H2. destruct w as [d l m a n]. sx. rewrite H1, H2. cbn [andb]. sx.
+  intros H1 H2 Hm. unfold request_melt_quote. cbn [negb].
+  assert (Hg : (msat <=? 0) || (two63 <=? msat) = false) by (apply orb_false_iff; split; [apply Z.leb_gt|apply Z.leb_gt]; lia).
+  rewrite Hg. apply Z.ltb_lt in H1, H2. destruct w as [d l m a n]. sx. rewrite H1, H2. cbn [andb]. sx.
   eexists. split; [reflexivity|repeat split].
+Qed.
+
+(* an invoice whose amount is missing or does not fit an int64 of millisatoshi gets no quote at all (before fix 49b3272 the
+   round-up to sat wrapped to 0 for amounts of 2^64-999 .. 2^64-1 msat and the melt maximum was compared with that 0) *)
+Theorem melt_amount_must_fit cfg mpp req h msat newid w :
+  msat <= 0 \/ two63 <= msat ->
+  run (request_melt_quote cfg true true req h msat mpp newid) no_fault w = (w, Done (Err EInvoice)).
+Proof.
+  intros Hm. unfold request_melt_quote. cbn [negb].
+  assert (Hg : (msat <=? 0) || (two63 <=? msat) = true) by (apply orb_true_iff; destruct Hm; [left|right]; apply Z.leb_le; assumption).
+  rewrite Hg. reflexivity.
 Qed.
 
 (* the balance limit: refused exactly when balance + amount (in the mint's 64-bit arithmetic) exceeds it *)
